@@ -7,7 +7,7 @@ ENV = {"GODEBUG": "clobberfree=1"}   # a freed closure / MakeFunc value is overw
 
 def run(ctx):
     q = ctx.quick()
-    r = ctx.tlc("MC_Iface", "MC_Iface.cfg", workers=16, timeout=1500, constants={"MaxOps": 5 if q else 6},
+    r = ctx.tlc("MC_Iface", "MC_Iface.cfg", workers=16, timeout=1500, constants={"MaxOps": 4 if q else 5},
                 tag="exhaustive: 2 variables of one type, 3 methods, 1 builder")
     ctx.note("MC_Iface: %d distinct states; CallsConform VarsConform NoDangling hold" % r["distinct"])
     g = ctx.tlc("MC_Iface", "Gen_Iface.cfg", workers=1, timeout=1500, constants={"MaxOps": 3 if q else 4},
